@@ -33,7 +33,7 @@ func init() {
 
 func c17(c *ctx) {
 	o := c.o
-	cases := [][]string{{"deadlock"}, {"orphan"}, {"hookvar"}, {"doubleterm"}}
+	cases := [][]string{{"deadlock"}, {"orphan"}, {"hookvar"}, {"doubleterm"}, {"authrace"}}
 	nStress := 3
 	if c.thorough() {
 		nStress = 16
@@ -80,6 +80,8 @@ func c17sub(c *ctx) {
 		c17Orphan(c, true)
 	case "doubleterm":
 		c17DoubleTerminate(c)
+	case "authrace":
+		c17AuthRace(c)
 	case "stress":
 		c17Stress(c)
 	default:
